@@ -360,7 +360,28 @@ func (x *Unit) evalUnary(st *State, e *ast.UnaryExpr) Term {
 		if cl, ok := ast.Unparen(e.X).(*ast.CompositeLit); ok {
 			return x.evalComposite(st, cl, true)
 		}
-		// &x.f only supported as argument of atomic ops (handled in call); &local of struct type: allocate? unsupported
+		// &local where local is a struct value: the callee receives a pointer to a fresh heap copy
+		if id, ok := ast.Unparen(e.X).(*ast.Ident); ok {
+			if v, ok := x.info.ObjectOf(id).(*types.Var); ok && !x.isPkgLevel(v) {
+				if su, ok := v.Type().Underlying().(*types.Struct); ok {
+					val := x.readVar(st, v)
+					if val.Sort.Kind == KStruct {
+						ref := x.alloc(st)
+						for j := 0; j < su.NumFields(); j++ {
+							f := su.Field(j)
+							if val.Sort.fieldIndex(f.Name()) < 0 {
+								continue
+							}
+							comp, _, _ := x.fieldComp(v.Type(), f.Name())
+							x.set(st, comp, Store(x.get(st, comp), ref, x.U.StructGet(val, f.Name())))
+						}
+						x.abstractions["&"+id.Name+": pointer to a copy of the local struct (writes through it are not reflected back)"] = true
+						ref.GoT = types.NewPointer(v.Type())
+						return ref
+					}
+				}
+			}
+		}
 		x.fail(e, "unsupported address-of expression")
 	case token.ARROW:
 		// channel receive: value is nondeterministic
@@ -507,6 +528,11 @@ func (x *Unit) evalComposite(st *State, e *ast.CompositeLit, addr bool) Term {
 			return r
 		}
 		if s.Kind != KStruct {
+			if len(e.Elts) == 0 {
+				z := x.U.Zero(s)
+				z.GoT = t
+				return z
+			}
 			x.fail(e, "composite literal of opaque struct %s", t)
 		}
 		fv := make([]Term, len(s.Fields))
